@@ -463,3 +463,55 @@ class KfRemoveThroughParent(ApiHistories):
 
 
 CONTRACTS = [ApiHistories, KfRemoveThroughParent]
+
+
+class ImageCornersNative(Contract):
+    """The corners a GeoImage shows in the session are the corners a later session reads: also when
+    they are derived from the image (no corners were ever assigned) and the image is replaced after
+    they were read."""
+    target = "geoh5py/objects/geo_image.py::GeoImage.vertices.fget"
+    variant = "image-corners"
+    symbolic = False
+    has_native = True
+    props = ("C01",)
+    bounded_scope = "one GeoImage (20x30 pixels); corners {read, not read} before the image is {kept, replaced by a 50x80 image}; corners {never assigned, assigned before, assigned after}; live corners at close compared with the corners read by a later session (exhaustive)"
+
+    def native_cases(self, tier, rng):
+        for read_first in (False, True):
+            for replace in (False, True):
+                for assigned in ("never", "before", "after"):
+                    yield {"read_first": read_first, "replace": replace, "assigned": assigned}
+
+    def native_check(self, case):
+        from geoh5py.objects import GeoImage
+        from geoh5py.workspace import Workspace
+
+        d = tempfile.mkdtemp()
+        try:
+            path = os.path.join(d, "img.geoh5")
+            rng = np.random.default_rng(3)
+            mine = np.array([[0.0, 10.0, 0.0], [40.0, 10.0, 0.0], [40.0, 0.0, 0.0], [0.0, 0.0, 0.0]])
+            with Workspace.create(path) as ws:
+                g = GeoImage.create(ws, name="img", image=rng.integers(0, 255, (20, 30, 3)).astype("uint8"))
+                if case["assigned"] == "before":
+                    g.vertices = mine
+                if case["read_first"]:
+                    _ = g.vertices
+                if case["replace"]:
+                    g.image = rng.integers(0, 255, (50, 80, 3)).astype("uint8")
+                if case["assigned"] == "after":
+                    g.vertices = mine
+                live = np.asarray(g.vertices, dtype=float).copy()
+                if case["assigned"] != "never" and not np.allclose(live, mine):
+                    return f"corners assigned to the image read {live.tolist()} in the session ({case})"
+            with Workspace(path, mode="r") as ws:
+                later = np.asarray(ws.get_entity("img")[0].vertices, dtype=float)
+            if later.shape != live.shape or not np.allclose(later, live):
+                return f"the image showed the corners {live[:, :2].tolist()} when the file was closed; a later session reads {later[:, :2].tolist()} ({case})"
+            return None
+        finally:
+            gc.collect()
+            shutil.rmtree(d, ignore_errors=True)
+
+
+CONTRACTS = CONTRACTS + [ImageCornersNative]
